@@ -1,21 +1,37 @@
 #!/usr/bin/env python3
-"""Builds the detection table of DESIGN.md 10.5 from /verif/seeded/*/meta.json and a results file
-(lines '<ID>-<N> rc=<exit code> harness=… clause=…;…' written by the isolated mutant lab)."""
+"""Builds the detection table of DESIGN.md 10.5 from /verif/seeded/*/meta.json and the result files
+(lines '<ID>-<N> rc=<exit code> harness=... clause=...;... [(retest ...)]' written by seedrun.sh / retest runs).
+For every change: the first result (before any strengthening) and the last one."""
 import json, glob, os, re, sys
-res = {}
+first, last = {}, {}
 for f in sys.argv[1:]:
     for l in open(f):
-        m = re.match(r'(C\d\d-\d+) rc=(\d+) ?(.*)', l.strip())
-        if m:
-            res[m.group(1)] = (m.group(2), m.group(3))
-rows = ["| change | file(s) | what it does (short) | reported by (harness / clause) |", "|---|---|---|---|"]
+        m = re.match(r'(C\d\d-\d+) rc=(\S+) ?(.*)', l.strip())
+        if not m:
+            continue
+        k = m.group(1)
+        v = (m.group(2), m.group(3))
+        if m.group(2) in ('2', 'APPLY-FAILED') and k in first:
+            continue  # lab problems (build in progress) are not results
+        if m.group(2) in ('2', 'APPLY-FAILED'):
+            continue
+        first.setdefault(k, v)
+        last[k] = v
+rows = ["| change | file(s) | what it does (short) | first run | reported by (harness / clause) |", "|---|---|---|---|---|"]
+missed = 0
 for d in sorted(glob.glob('/verif/seeded/C*-*')):
     n = os.path.basename(d)
     meta = json.load(open(d + '/meta.json'))
     s = meta['summary'].replace('\n', ' ').replace('|', '/')
-    s = re.split(r'(?<=[a-z\)])\. ', s)[0][:230]
-    rc, cl = res.get(n, ('?', ''))
-    first = cl.split(';')[0].replace('harness=', '').replace(' clause=', ' / ')
-    verdict = first if rc == '1' else ('NOT RUN' if rc == '?' else 'rc=%s %s' % (rc, first))
-    rows.append("| %s | %s | %s | %s |" % (n, ', '.join(os.path.basename(x) for x in meta.get('files', [])), s, verdict))
+    s = re.split(r'(?<=[a-z\)])\. ', s)[0][:200]
+    rc, cl = last.get(n, ('?', ''))
+    frc = first.get(n, ('?', ''))[0]
+    cl = re.sub(r'\(retest.*', '', cl)
+    firstcl = cl.split(';')[0].replace('harness=', '').replace(' clause=', ' / ').strip()
+    verdict = firstcl if rc == '1' else ('NOT RUN' if rc == '?' else 'MISSED')
+    fr = 'caught' if frc == '1' else ('-' if frc == '?' else 'missed')
+    if frc not in ('1', '?'):
+        missed += 1
+    rows.append("| %s | %s | %s | %s | %s |" % (n, ', '.join(os.path.basename(x) for x in meta.get('files', [])), s, fr, verdict))
 print('\n'.join(rows))
+print('\n%d changes, %d missed by the check as it stood when the change arrived, %d missed now' % (len(rows) - 2, missed, sum(1 for r in rows if r.endswith('MISSED |'))), file=sys.stderr)
